@@ -1,6 +1,8 @@
 import Qryn.ReadSide.Params
+import Qryn.ReadSide.Controllers
 import Qryn.Gen.ReadSide
 import Qryn.ReadSide.PipelineHExec
+import Qryn.ReadSide.StageExec
 namespace Driver.C12
 open Qryn.ReadSide Qryn.Gen
 
@@ -16,6 +18,9 @@ def parsed? (s : String) : Option (Parsed Int) :=
   if s = "a" then some .absent else if s = "i" then some .invalid else s.toInt?.map .ok
 
 def bool? (s : String) : Option Bool := if s = "1" then some true else if s = "0" then some false else none
+
+def out? (s : String) : Option Out :=
+  if s = "o" then some .ok else if s = "e" then some .err else if s = "f" then some .fault else none
 
 def fault (f : Fault) : String := "fault:" ++ f.name
 
@@ -87,5 +92,39 @@ def handle : List String → Option String
   | ["c12trace", idLen, bad, qf] => do
     let bad ← if bad = "-" then some none else bad.toNat?.map some
     some (tempoTrace ⟨← idLen.toNat?, bad, true, true, ← bool? qf⟩).name
+  | ["c12sdrain", bs] => do
+    some (Pipe.stageRun Pipe.wrapProcessCode (← list? bool? bs))
+  -- the remaining controllers (Controllers.lean): `c12ctl <endpoint> <step outcomes / parsed parameters …>`
+  | ["c12ctl", "lokiLabels", pl, fo, s, e, sv] => do
+    some (lokiLabels (← out? pl) (← out? fo) (← parsed? s) (← parsed? e) (← out? sv)).name
+  | ["c12ctl", "lokiValues", pl, fo, s, e, ne, sv] => do
+    some (lokiValues (← out? pl) (← out? fo) (← parsed? s) (← parsed? e) (← bool? ne) (← out? sv)).name
+  | ["c12ctl", "lokiSeries", pl, fo, s, e, nm, sv] => do
+    some (lokiSeries (← out? pl) (← out? fo) (← parsed? s) (← parsed? e) (← bool? nm) (← out? sv)).name
+  | ["c12ctl", "lokiTail", pl, qe, sv, up] => do
+    some (lokiTail (← out? pl) (← bool? qe) (← out? sv) (← bool? up)).name
+  | ["c12ctl", "promLabels", pl, fo, sv] => do
+    some (promLabels (← out? pl) (← out? fo) (← out? sv)).name
+  | ["c12ctl", "promLabelValues", pl, pa, ne, sv, s0] => do
+    some (promLabelValues (← out? pl) (← out? pa) (← bool? ne) (← out? sv) (← out? s0)).name
+  | ["c12ctl", "promSeries", pl, fo, f2, sv] => do
+    some (promSeries (← out? pl) (← out? fo) (← out? f2) (← out? sv)).name
+  | ["c12ctl", "promMetadata", pl] => do
+    some (promMetadata (← out? pl)).name
+  | ["c12ctl", "promInstant", pl, fo, t, qe, nq, ex, wr] => do
+    some (promQueryInstant (← out? pl) (← out? fo) (← parsed? t) (← bool? qe) (← out? nq) (← out? ex) (← out? wr)).name
+  | ["c12ctl", "tempoTagsV1", pl, sv] => do
+    some (tempoTagsV1 (← out? pl) (← out? sv)).name
+  | ["c12ctl", "tempoTagsV2", pl, s, e, v1, v2, m] => do
+    some (tempoTagsV2 (← out? pl) (← parsed? s) (← parsed? e) (← out? v1) (← out? v2) (← out? m)).name
+  | ["c12ctl", "tempoSearch", pl, mi, ma, li, s, e, hq, ql, tg] => do
+    some (tempoSearch (← out? pl) (← parsed? mi) (← parsed? ma) (← parsed? li) (← parsed? s) (← parsed? e) (← bool? hq) (← out? ql) (← out? tg)).name
+  | ["c12ctl", "static"] => some staticAnswer.name
+  | ["c12ctl", "prof", pa, sv, ma] => do
+    some (profEndpoint (← out? pa) (← out? sv) (← out? ma)).name
+  | ["c12ctl", "profNoBody", sv, ma] => do
+    some (profNoBody (← out? sv) (← out? ma)).name
+  | ["c12ctl", "profRenderDiff", mi, a, b, c, d, sv] => do
+    some (profRenderDiff (← bool? mi) (← parsed? a) (← parsed? b) (← parsed? c) (← parsed? d) (← out? sv)).name
   | _ => none
 end Driver.C12
